@@ -28,6 +28,7 @@
 // at which it is not is reported, so merging cannot hide it.  The last-read id keeps "write,read,write" interleavings
 // (stream get/put position, filebuf mode) apart from "write,write".
 #include "vmc.h"
+#include "stir/Radionuclide.h"
 #include "stir_small.h"
 #include "stir/ProjDataFromStream.h"
 #include "stir/ProjDataInterfile.h"
@@ -250,6 +251,9 @@ static shared_ptr<ExamInfo> make_exam_info()
   ex->set_low_energy_thres(425.F); ex->set_high_energy_thres(650.F);
   ex->start_time_in_secs_since_1970 = 1.0e9;
   ex->set_calibration_factor(2.5F);
+  // an explicit radionuclide that is not the PET default: the Interfile header stores name, half life and branching ratio.
+  // (An unset radionuclide is not stored; reading then fills in the modality's default, which the statement does not forbid.)
+  ex->set_radionuclide(Radionuclide("Xx-1", 511.F, 0.75F, 123.5F, ex->imaging_modality));
   return ex;
 }
 
